@@ -800,6 +800,48 @@ def check_type_pair(case, ctx):
         ctx.raises(TypeError, lambda: tensor_product(x, y), "pair_rejected", f"{a} x {b}")
 
 
+# ----------------------------------------------------------------------------- facet large_state_product (enumeration)
+LARGE_PRODUCTS = [  # (dims by argument position, first argument group, second argument group) - names are the positions
+    {"dims": [2, 3, 2, 3], "groups": [[2, 3, 4], [1]]},   # vector of 1296 entries, a 4-cycle to sort
+    {"dims": [3, 2, 3, 2], "groups": [[1, 4], [2, 3]]},
+    {"dims": [2, 2, 3, 3], "groups": [[2, 4], [1, 3]]},
+]
+
+
+def large_product_items(tier):
+    return LARGE_PRODUCTS if tier != "quick" else LARGE_PRODUCTS[:2]
+
+
+def check_large_state_product(case, ctx):
+    """product states whose coefficient vector has more than 1024 entries (four subsystems, two of them qutrits), the two
+    arguments interleaved so that sorting needs a cycle: the product is the Kronecker product in ascending name."""
+    from quara.objects.operators import tensor_product
+
+    names = [1, 2, 3, 4]
+    dims = {n: d for n, d in zip(names, case["dims"])}
+    es = {n: _esys(n, dims[n]) for n in names}
+    rhos, objs = {}, {}
+    for n in names:
+        d = dims[n]
+        raw = [math.sin(1.7 * k + 0.3 * n) for k in range(2 * d * d)]
+        u = rm.unitary_from_raw(raw, d)
+        p = np.array([0.5 + 0.4 * math.cos(1.1 * k + n) for k in range(d)])
+        p = p / p.sum()
+        rho = rm.herm(u @ np.diag(p) @ u.conj().T)
+        rhos[n] = rho
+        objs[n] = build.make(_csys([es[n]]), "state", np.real(_vec(np.array(_local_basis(d)), rho)))
+    g1, g2 = case["groups"]
+    a = tensor_product(*[objs[n] for n in g1]) if len(g1) > 1 else objs[g1[0]]
+    b = tensor_product(*[objs[n] for n in g2]) if len(g2) > 1 else objs[g2[0]]
+    res = tensor_product(a, b)
+    want = _kron_all([rhos[n] for n in names])
+    dtot = int(np.prod(case["dims"]))
+    ctx.equal([e.name for e in res.composite_system.elemental_systems], names, "large_product:csys_sorted")
+    ctx.close(np.asarray(res.to_density_matrix()), want, _tol(dtot), "large_product:state_is_kron_in_ascending_name")
+    ctx.label("dims:" + "x".join(map(str, case["dims"])), f"vec-entries:{dtot * dtot}")
+    ctx.nontrivial(True)
+
+
 # ----------------------------------------------------------------------------- facet product_statistics
 def _safe_perm(names, perm):
     """argument order perm of the factors: True iff the flat fold never reaches the F1 root cause."""
@@ -1220,6 +1262,15 @@ FACETS = {
         "budget": {"quick": {"examples": 0, "shards": 1}, "thorough": {"examples": 0, "shards": 1}},
         "nontrivial": "every ordered pair of operand types (exhaustive)",
         "min_nontrivial": 47,
+    },
+    "large_state_product": {
+        "kind": "enumeration",
+        "items": large_product_items,
+        "check": check_large_state_product,
+        "exhaustive": False,
+        "budget": {"quick": {"examples": 0, "shards": 2}, "thorough": {"examples": 0, "shards": 3}},
+        "nontrivial": "every case (coefficient vector beyond 1024 entries, arguments interleaved)",
+        "min_nontrivial": 2,
     },
     "product_statistics": {
         "strategy": stats_case,
